@@ -462,20 +462,30 @@ def immutable_fn_contracts(layouts, s, rel_mod, rel_slippi, stub=False, only=('w
 
 
 def emit_len_lemmas(layouts):
+    """Per struct: emitting row i appends exactly size_spec(v) bytes (used by the C17 raw-length lemma)."""
     out = []
     for s in ORDER:
         out.append('impl %s {' % s)
         out.append('\tpub proof fn lemma_emit_len(&self, acc: Seq<u8>, i: int, v: Version)')
         out.append('\t\tensures self.emit(acc, i, v).len() == acc.len() + %s::size_spec(v) /*[%s.emit_len]*/,' % (s, s))
         out.append('\t{')
-        # call sub-lemmas
         k = 0
         prev = 'acc'
         for f in sorted([f for f in layouts[s]['fields'] if f.kind != 'validity'], key=lambda f: f.off):
             k += 1
-            if f.kind == 'sub':
+            cur = 'a%d' % k
+            if f.kind == 'prim':
+                val = 'self.%s.values_spec()[i]' % f.name if not f.opt else 'self.%s->Some_0.values_spec()[i]' % f.name
+                e = '%s + bytes_%s(%s)' % (prev, f.ty, val)
+            else:
                 tgt = 'self.%s' % f.name if not f.opt else 'self.%s->Some_0' % f.name
-                out.append('\t\t%s.lemma_emit_len(%s, i, v);' % (tgt, 'self.emit_prefix_%d(acc, i, v)' % (k - 1) if False else 'arbitrary()') if False else '')
+                e = '%s.emit(%s, i, v)' % (tgt, prev)
+                call = '%s.lemma_emit_len(%s, i, v);' % (tgt, prev)
+                out.append('\t\t' + ('if %s { %s }' % (ge(f.since), call) if f.opt else call))
+            if f.opt:
+                e = 'if %s { %s } else { %s }' % (ge(f.since), e, prev)
+            out.append('\t\tlet %s = %s;' % (cur, e))
+            prev = cur
         out.append('\t}')
         out.append('}')
     return '\n'.join(out)
